@@ -72,7 +72,7 @@ def inputs(ctx):
             for gap in range(0, 9):
                 for drop in (False, True):
                     for doubled in (False, True):
-                        for offset in (0, 1, 2):
+                        for offset in (0, 1, 2, 0.5, 1.25):
                             if ctx.quick and (n % 4):
                                 n += 1
                                 continue
@@ -112,7 +112,8 @@ def inputs(ctx):
             ln["tc"] = _tc(fr)
         first = ((lines[0]["tc"][0] * 60 + lines[0]["tc"][1]) * 60 + lines[0]["tc"][2])
         ins.append({"id": "r%d" % k, "lines": lines, "doubled": rng.random() < 0.5,
-                    "offset": rng.choice([0, 0, 1, rng.randrange(0, first + 1)])})
+                    "offset": rng.choice([0, 0, 1, rng.randrange(0, first + 1),
+                                          rng.randrange(0, first * 1000 + 1) / 1000 if first else 0])})
     return ins
 
 
@@ -158,9 +159,12 @@ def build_lines(inp):
 def execute(inp):
     lines = build_lines(inp)
     text, abs_lines = sccgen.render_program(lines, inp["doubled"])
-    kw = {"offset": inp["offset"]} if inp["offset"] else {}
+    # offsets are given in seconds to the reader (int when whole, float otherwise) and in
+    # milliseconds to the specification
+    off = inp["offset"]
+    kw = {"offset": off} if off else {}
     drop = lines[0]["drop"]
-    return {"k": "timing", "prog": abs_lines, "drop": drop, "offset": inp["offset"], "obs": read_scc(text, **kw)}
+    return {"k": "timing", "prog": abs_lines, "drop": drop, "offset": int(round(off * 1000)), "obs": read_scc(text, **kw)}
 
 
 def signature(inp, rec, clause):
